@@ -4,7 +4,7 @@
    recursive on the remaining input.  The connection-level half (one ERR, in step, or close) is carried
    by the connection machine, see Props/C03.v / Props/C10.v. *)
 From Coq Require Import List NArith ZArith Lia Bool.
-From MM Require Import Lib.Bytes Model.Parse Proofs.ParseProofs Gen.FactsPackets.
+From MM Require Import Lib.Bytes Model.Parse Model.Conn Proofs.ParseProofs Gen.FactsPackets Gen.FactsConn Gen.FactsStream.
 Import ListNotations.
 Open Scope N_scope.
 
@@ -12,8 +12,13 @@ Open Scope N_scope.
 Theorem c07_source_shape :
   translated_packets = true /\ types_read_str_null_ok = true /\ types_read_uint_len_ok = true /\
   types_read_str_len_ok = true /\ packets_read_connect_attrs_ok = true /\ prepared_find_params_ok = true /\
-  packets_interpolate_by_position = true.
+  packets_interpolate_by_position = true /\ connection_connection_command_phase_ok = true /\ translated_stream = true.
 Proof. repeat split; reflexivity. Qed.
+
+(* a packet whose sequence id is wrong is rejected before its payload is consumed: the only in-step answer is to end
+   the connection, and that is what the command loop does with every exception raised by the read itself *)
+Theorem c07_read_failure_ends_connection : forall s code, Model.Conn.throw s (XMysql code) FRead = ToClose s true.
+Proof. intros s code. cbn. destruct (kill s) as [[|]|]; reflexivity. Qed.
 
 Theorem c07_read_params_total : forall qa count buffers data, rd_params qa count buffers data <> Err OutOfFuel.
 Proof. exact rd_params_total. Qed.
